@@ -35,7 +35,7 @@ ASSUMPTIONS = [
     "exact ties (d==tau, c==tau, c==d) accept either tied outcome; termination and cleanup are still required",
     "a function that ignores the first cancellation finishes e ticks later by itself",
 ]
-EXHAUSTIVE_MEANS = "integer grid d in 0..5 x tau in 1..5 x c in {none, 0..6} x 6 outcome kinds, single-step duration"
+EXHAUSTIVE_MEANS = "integer grid d in 0..5 x tau in 0..5 x c in {none, 0..6} x 6 outcome kinds, single-step duration; a caller cancellation at every loop iteration for d<=2, tau<=3; a half-integer grid started at two non-round absolute times"
 REQUIRED_CLASSES = ["timeout-first", "cancel-first", "function-first", "tie", "function-ends-cancelled-or-base"]
 
 KINDS = ["value", "exc", "base", "selfcancel_raise", "selfcancel_task", "ignore"]
@@ -76,6 +76,7 @@ def _run_timed(case, inject_iter):
     out = Outcome()
     d, tau, c, kind, e = case["d"], case["tau"], case["c"], case["outcome"], case.get("e", 2)
     steps = max(1, case.get("steps", 1))
+    t0 = case.get("t0", 0)  # the call starts at absolute time t0 (a dyadic fraction: the loop clock is not at a round value)
     flags: dict = {"started": None, "cancel_seen": None, "ended": None, "cancel_count": 0}
     holder: dict = {}
     val = object()
@@ -95,7 +96,7 @@ def _run_timed(case, inject_iter):
                         for _ in range(steps):
                             await asyncio.sleep(d / steps)
                 except asyncio.CancelledError:
-                    flags["cancel_seen"] = loop.time()
+                    flags["cancel_seen"] = loop.time() - t0
                     flags["cancel_count"] += 1
                     if kind == "ignore":
                         await asyncio.sleep(e)
@@ -125,11 +126,13 @@ def _run_timed(case, inject_iter):
             except BaseException as exc:  # noqa: BLE001 - the observation
                 return ("exc", exc)
 
+        if t0:
+            await asyncio.sleep(t0)
         task = loop.create_task(caller())
-        task.add_done_callback(lambda t: obs.setdefault("t", loop.time()))
+        task.add_done_callback(lambda t: obs.setdefault("t", loop.time() - t0))
         holder["task"] = task
         if c is not None:
-            loop.call_at(c, task.cancel)
+            loop.call_at(t0 + c, task.cancel)
         await asyncio.sleep(t_end)
         obs["done"] = task.done()
         if task.done():
@@ -274,6 +277,10 @@ def enumerate_cases(tier):
         yield {"d": d, "steps": 1, "outcome": kind, "e": 2, "tau": tau, "c": c}
     for d, tau, kind in itertools.product([0, 1, 2], [0, 1, 2, 3], KINDS):
         yield {"d": d, "steps": 1, "outcome": kind, "e": 1, "tau": tau, "c": None, "c_iter": "all"}
+    # the same race with the call starting at absolute times that are not round numbers (nothing may depend on where the
+    # loop clock stands): half-integer durations around integer timeouts, with and without a caller cancellation
+    for t0, d, tau, c, kind in itertools.product([1 / 128, 37 / 128], [0.5, 1.5, 2.5], [0.5, 1, 2], [None, 1, 2], KINDS):
+        yield {"d": d, "steps": 1, "outcome": kind, "e": 2, "tau": tau, "c": c, "t0": t0}
     if tier == "thorough":
         for d, tau, c, kind, steps in itertools.product([1, 2, 4], [1, 2, 3], [None, 0, 1, 2, 3, 4], KINDS, [2, 4]):
             yield {"d": d, "steps": steps, "outcome": kind, "e": 1, "tau": tau, "c": c}
@@ -282,13 +289,14 @@ def enumerate_cases(tier):
 def strategy(tier):
     eighth = st.integers(0, 48).map(lambda n: n / 8)
     return st.builds(
-        lambda d, steps, kind, e, tau, c: {"d": d, "steps": steps, "outcome": kind, "e": e, "tau": tau, "c": c},
+        lambda d, steps, kind, e, tau, c, t0: {"d": d, "steps": steps, "outcome": kind, "e": e, "tau": tau, "c": c, "t0": t0},
         eighth,
         st.sampled_from([1, 2, 4]),
         st.sampled_from(KINDS),
         st.integers(1, 16).map(lambda n: n / 8),
         st.integers(0, 48).map(lambda n: n / 8),
         st.one_of(st.none(), eighth),
+        st.sampled_from([0, 0, 1 / 128, 37 / 128, 0.375, 5 / 1024, 1.0, 100 + 1 / 64]),
     )
 
 
